@@ -83,6 +83,24 @@ def resolve(gene, genome):
     return out
 
 
+def transcripts_of(gene):
+    """the gene's transcripts as single-transcript gene specs: the gene itself, then one per entry of the optional
+    ``iso`` list ({"exons", "cds", "f0"}: further isoforms on the gene's strand, of the gene's kind)"""
+    base = {k: v for k, v in gene.items() if k != "iso"}
+    return [base] + [dict(base, **t) for t in gene.get("iso", [])]
+
+
+def tx_ids(ids, k):
+    """identifiers of isoform number k of a gene (k = 0: the identifiers of ids_of)"""
+    if k == 0:
+        return ids
+    d = dict(ids)
+    d["transcript_id"] = f"{ids['transcript_id']}_{k}"
+    d["transcript_symbol"] = f"{ids['transcript_symbol']}_{k}" if ids["transcript_symbol"] else None
+    d["protein_id"] = f"{ids['protein_id']}_{k}" if ids["protein_id"] else None
+    return d
+
+
 def expected_protein(r, flavour):
     """independent translation of the CDS for the flavour's table; None = refused (ambiguous codon)"""
     try:
@@ -108,27 +126,30 @@ def expected_rows(rec, flavour, upd):
     genome = GENOMES[rec["genome"]]
     rows = []
     for i, g in enumerate(rec["genes"]):
-        r = resolve(g, genome)
-        ids = ids_of(g, i)
-        sym, tag = ids["symbol_written"], ids["tag_written"]
-        gq = {"gene": sym, "gene_id": ids["gene_id"]}
+        gids = ids_of(g, i)
+        sym, tag = gids["symbol_written"], gids["tag_written"]
+        rs = [resolve(t, genome) for t in transcripts_of(g)]
+        gq = {"gene": sym, "gene_id": gids["gene_id"]}
         gq = {k: v for k, v in gq.items() if v is not None}
-        rows.append(dict(type="gene", parts=parts([r["span"]], r["strand"]), q=gq, lt=tag, translation=None, gene=i))
-        tq = {"transcript_id": ids["transcript_id"]}
-        if sym is not None:
-            tq["gene"] = sym
-        if ids["transcript_symbol"]:
-            tq["transcript_name"] = ids["transcript_symbol"]
-        if r["kind"] == "coding":
-            if flavour == "EUKARYOTIC":
-                rows.append(dict(type="mRNA", parts=parts(r["exons"], r["strand"]), q=dict(tq), lt=tag, translation=None, gene=i))
-            cq = dict(tq)
-            if ids["protein_id"]:
-                cq["protein_id"] = ids["protein_id"]
-            rows.append(dict(type="CDS", parts=parts(r["cds"], r["strand"]), q=cq, lt=tag,
-                             translation=expected_protein(r, flavour) if upd else None, gene=i, f0=r["f0"]))
-        else:
-            rows.append(dict(type=r["kind"], parts=parts(r["exons"], r["strand"]), q=dict(tq), lt=tag, translation=None, gene=i))
+        span = (min(r["span"][0] for r in rs), max(r["span"][1] for r in rs))
+        rows.append(dict(type="gene", parts=parts([span], rs[0]["strand"]), q=gq, lt=tag, translation=None, gene=i))
+        for k, r in enumerate(rs):
+            ids = tx_ids(gids, k)
+            tq = {"transcript_id": ids["transcript_id"]}
+            if sym is not None:
+                tq["gene"] = sym
+            if ids["transcript_symbol"]:
+                tq["transcript_name"] = ids["transcript_symbol"]
+            if r["kind"] == "coding":
+                if flavour == "EUKARYOTIC":
+                    rows.append(dict(type="mRNA", parts=parts(r["exons"], r["strand"]), q=dict(tq), lt=tag, translation=None, gene=i))
+                cq = dict(tq)
+                if ids["protein_id"]:
+                    cq["protein_id"] = ids["protein_id"]
+                rows.append(dict(type="CDS", parts=parts(r["cds"], r["strand"]), q=cq, lt=tag,
+                                 translation=expected_protein(r, flavour) if upd else None, gene=i, f0=r["f0"]))
+            else:
+                rows.append(dict(type=r["kind"], parts=parts(r["exons"], r["strand"]), q=dict(tq), lt=tag, translation=None, gene=i))
     for j, fc in enumerate(rec.get("fcs", [])):
         ids = fc_ids_of(j)
         bl = sorted(tuple(b) for b in fc["blocks"])
@@ -147,25 +168,34 @@ def expected_models(rec, flavour):
     genome = GENOMES[rec["genome"]]
     out = []
     for i, g in enumerate(rec["genes"]):
-        r = resolve(g, genome)
-        ids = ids_of(g, i)
-        coding = r["kind"] == "coding"
-        exons = r["exons"] if (flavour == "EUKARYOTIC" or not coding) else r["cds"]
-        out.append(dict(
-            locus_tag=ids["tag_written"],  # the source tag or its documented fallback (symbol, else gene id)
-            gene_id=ids["gene_id"],
-            gene_symbol=ids["gene_symbol"],  # None = the writer may substitute the gene id
-            key=ids["tag_written"] or "tx:" + ids["transcript_id"],
-            strand=r["strand"],
-            exons=[list(b) for b in exons],
-            cds=[list(b) for b in r["cds"]] if coding else None,
-            frames=list(r["frames"]) if coding else None,
-            f0=r["f0"],
-            transcript_id=ids["transcript_id"], protein_id=ids["protein_id"],
-            transcript_symbol=ids["transcript_symbol"],
-            biotype="protein_coding" if coding else r["kind"],
-            gene_start=min(b[0] for b in r["exons"]),  # start of the gene row the writer emits (the transcript span)
-        ))
+        gids = ids_of(g, i)
+        txs = []
+        for k, t in enumerate(transcripts_of(g)):
+            r = resolve(t, genome)
+            ids = tx_ids(gids, k)
+            coding = r["kind"] == "coding"
+            exons = r["exons"] if (flavour == "EUKARYOTIC" or not coding) else r["cds"]
+            txs.append(dict(
+                strand=r["strand"],
+                exons=[list(b) for b in exons],
+                cds=[list(b) for b in r["cds"]] if coding else None,
+                frames=list(r["frames"]) if coding else None,
+                f0=r["f0"],
+                transcript_id=ids["transcript_id"], protein_id=ids["protein_id"],
+                transcript_symbol=ids["transcript_symbol"],
+                biotype="protein_coding" if coding else r["kind"],
+                span_start=min(b[0] for b in r["exons"]),
+            ))
+        e = dict(txs[0])  # (single-transcript genes: the gene entry carries its transcript's fields, as before)
+        e.update(
+            locus_tag=gids["tag_written"],  # the source tag or its documented fallback (symbol, else gene id)
+            gene_id=gids["gene_id"],
+            gene_symbol=gids["gene_symbol"],  # None = the writer may substitute the gene id
+            key=gids["tag_written"] or "tx:" + "|".join(sorted(t["transcript_id"] for t in txs)),
+            gene_start=min(t["span_start"] for t in txs),  # start of the gene row the writer emits (the span of its transcripts)
+            transcripts=txs,
+        )
+        out.append(e)
     return out
 
 
@@ -303,8 +333,35 @@ def multi_gene_records(tier):
     return out
 
 
+ISO_MENU = (
+    # (first isoform, further isoforms): local coordinates in a 14-base slot
+    (dict(exons=[[0, 4], [6, 14]], strand="+", kind="coding", cds=[0, 12], f0=0), [dict(exons=[[0, 4], [8, 14]], cds=[0, 9], f0=0)]),
+    (dict(exons=[[0, 4], [6, 14]], strand="-", kind="coding", cds=[1, 10], f0=1), [dict(exons=[[0, 3], [6, 14]], cds=[0, 9], f0=2)]),
+    (dict(exons=[[0, 14]], strand="+", kind="coding", cds=[0, 12], f0=0), [dict(exons=[[2, 14]], cds=[0, 9], f0=0), dict(exons=[[0, 5], [8, 14]], cds=[2, 11], f0=0)]),
+    (dict(exons=[[0, 4], [6, 14]], strand="+", kind="ncRNA"), [dict(exons=[[0, 4], [8, 14]])]),
+    (dict(exons=[[0, 4], [6, 14]], strand="-", kind="misc_RNA"), [dict(exons=[[1, 4], [6, 12]])]),
+    (dict(exons=[[0, 14]], strand="-", kind="tRNA"), [dict(exons=[[0, 6], [8, 14]])]),
+)
+
+
+def isoform_records(tier):
+    """genes with two or three isoforms (coding / non-coding; same or different spans), alone and next to a second,
+    single-isoform gene (before / after), with and without a locus tag of their own"""
+    out = []
+    for first, more in ISO_MENU:
+        for off in (1, 20):
+            g = place(first, off)
+            g["iso"] = [dict(t, exons=[[s + off, e + off] for s, e in t["exons"]]) for t in more]
+            for ids in (0, 2):
+                gi = dict(g, ids=ids)
+                out.append({"genome": "A", "genes": [gi], "fcs": []})
+            other = place(MENU[4 if first["kind"] == "coding" else 0], 22 if off == 1 else 2)
+            out.append({"genome": "A", "genes": [g, other] if off == 1 else [other, g], "fcs": []})
+    return out
+
+
 def n_rows(rec, flavour):
     n = 0
     for g in rec["genes"]:
-        n += 3 if (g["kind"] == "coding" and flavour == "EUKARYOTIC") else 2
+        n += 1 + len(transcripts_of(g)) * (2 if (g["kind"] == "coding" and flavour == "EUKARYOTIC") else 1)
     return n + 2 * len(rec.get("fcs", []))
